@@ -147,7 +147,11 @@ def run(tier, seed):
         for t in _tokens(*c):
             toktypes[t[0]] = toktypes.get(t[0], 0) + 1
     distinct = len(set(cases))
+    # how much of the code the model transcribes do the correspondence inputs execute (a measurement, not a verdict)
+    _sample = cases[::max(1, len(cases) // 3000)]
+    coverage_lines = lib.modelled_code_coverage([('css_parser.tokenize2', 'Tokenizer.tokenize'), ('css_parser.tokenize2', 'has_at'), ('css_parser.tokenize2', 'suffix_eq')], [lambda c=c: py_of(c) for c in _sample], limit=3005)
     coverage = {
+        'modelled_code_line_coverage': coverage_lines,
         'evaluations': res['n'],
         'distinct_nontrivial': distinct,
         'rule': 'cases = (text, fullsheet, doComments); exhaustive over all strings up to the stated length on a '
